@@ -44,3 +44,47 @@ def unit_mb_for_species(twin=False):
     r.assumptions += ["store_mb_unknowns(unknown, &amount, coef, &derivative) books coef*amount into the unknown's sum (body not under contract)",
                       "element mole-balance entries (coef * master coef) and diffuse-layer entries are not pinned here", "agreement of COMBINE between prep.cpp and model.cpp is under C01.residuals"]
     return r
+
+
+def unit_mb_element_coefficients(twin=False):
+    """mb_for_species_aq / _ex / _surf, one element of the species' composition per iteration: when the species is entered into the mole balance
+    of that element's master, its coefficient is (atoms of the element in the species) x (coefficient of the master), the amount summed is the
+    species' own moles, and the balance is the one of that master's unknown (secondary master when the primary has one)."""
+    q0 = "Phreeqc::mb_for_species_"
+    fn0 = A.find_function(PREP, q0 + "aq")
+    r = U.new_unit("C02.mb_for_species.element_coefficient_is_atoms_x_master_coefficient", PREP, q0 + "aq/ex/surf", fn0)
+    total = 0
+    for kind in ("aq", "ex", "surf"):
+        q = q0 + kind
+        fn = A.find_function(PREP, q)
+        k = loop_ordinal(fn, PREP, init_text="i=0", cond_text="i<count_elts")
+        c = stop_on_error_msg(ctx(functional=()))
+        f, ex, its, info = U.run_loop_isolated(PREP, q, k, ctx=c)
+        n = 0
+        for s in live(its, ("run", "cont")):
+            st = [e for e in U.iter_events(s) if e.name.endswith("store_mb_unknowns")]
+            if not st:
+                continue
+            sp = vec_elem(ex, s, "s", local(info, s, "n"))
+            ent = tm.select(entry_arr(ex, s, ("f", "#vdata", "P")), tm.app("fld:elt_list", (THIS,), "P")) + tm.sym("iter_i", "I")
+            ecoef = fld0(ex, s, "coef", "R", ent)
+            for e in st:
+                unk, srcaddr, coef = e.args[0], e.args[1], e.args[2]
+                # the generic element entry is the one whose coefficient mentions the element-list coefficient; the special charge / potential
+                # entries (z, dz[k]) are C02.mb_for_species.same_H_O_charge... and C20 units
+                if "fld:elt_list" not in repr(coef) and "coef" not in repr(coef):
+                    continue
+                n += 1
+                if n > 12:
+                    break
+                mp = local(info, s, "master_ptr")
+                want = ecoef * fld0(ex, s, "coef", "R", mp)
+                if twin:
+                    want = fld0(ex, s, "coef", "R", mp)
+                U.discharge_eq_real(r, "%s.coefficient==atoms*master_coef#%d" % (kind, n), list(s.pc), coef, want)
+                r.add("%s.amount_summed_is_the_species'_own_moles#%d" % (kind, n), DISCHARGED if "moles" in repr(srcaddr) and repr(sp) in repr(srcaddr) else FAILED, "symex", 0, repr(srcaddr)[:120])
+                r.add("%s.balance_is_that_master's_unknown#%d" % (kind, n), DISCHARGED if unk is fld0(ex, s, "unknown", "P", mp) else FAILED, "symex", 0, repr(unk)[:120])
+        total += n
+        r.add("reach.%s" % kind, DISCHARGED if n else UNDECIDED, "symex", 0, str(n), kind="vacuity")
+    r.assumptions += ["elt_list holds the species' elemental composition (write_mb_eqn_x / add_elt_list)", "which elements are skipped (H+, e-, H2O, pH/pe/alkalinity unknowns, initial-solution rules) is not pinned here"]
+    return r
